@@ -164,8 +164,12 @@ def registry_run(progs, policy, max_steps=1500):
         try:
           if k == "append":
             fresh.append(name)
-          elif k == "attr":
+          elif k == "attr" and not hasattr(OrderedDict, name) and name not in ("highest_inner_signal", "append", "name_for_signal", "is_inner_signal"):
             rec[3] = getattr(fresh, name)
+          elif k == "attr":
+            rec[1] = k = "ev_name"        # such a name cannot be reached through attribute access: used through Event instead
+            e = mev.Event(signal=name)
+            rec[3], rec[4] = e.signal, e.signal_name
           elif k == "ev_name":
             e = mev.Event(signal=name)
             rec[3], rec[4] = e.signal, e.signal_name
@@ -192,7 +196,12 @@ def registry_run(progs, policy, max_steps=1500):
     for t, ops in sorted(progs.items()):
       sched.spawn(t, worker, t, ops)
     out = sched.run()
-    final = [[k, v] for k, v in OrderedDict.items(fresh)]
+    for rec in events:       # what the code reports must be a number and a name: anything else is recorded as -1 / "?"
+      if not isinstance(rec[3], int) or isinstance(rec[3], bool):
+        rec[3] = -1
+      if not isinstance(rec[4], str):
+        rec[4] = "?"
+    final = [[k, v if isinstance(v, int) else -1] for k, v in OrderedDict.items(fresh)]
     return {"outcome": out, "ev": events, "final": final, "errors": len(sched.errors), "errs": sched.errors[:1],
             "done": all(vt.state == "done" for vt in sched.threads), "schedule": [c[0] for c in sched.choices],
             "choices": list(sched.choices)}
